@@ -184,7 +184,13 @@ def decBody : Sexp → Option Block
   | _ => none
 
 def decCtx : Sexp → Option Ctx
-  | list [list ees, list classes] => some ⟨ees.filterMap asStr?, classes.filterMap asStr?⟩
+  | list [list ees, list classes] => some ⟨ees.filterMap asStr?, classes.filterMap asStr?, []⟩
+  | list [list ees, list classes, list events] =>
+    some ⟨ees.filterMap asStr?, classes.filterMap asStr?, events.filterMap fun
+      | list [a, b] => match asStr? a, asStr? b with
+        | some x, some y => some (x, y)
+        | _, _ => none
+      | _ => none⟩
   | _ => none
 
 mutual
